@@ -41,7 +41,7 @@ func TestVerifC11(t *testing.T) {
 	if ev.Thorough() {
 		depth = 9
 	}
-	r.Rule(fmt.Sprintf("breadth-first search to depth %d from roots with a bound fixed-IP pod over the same alphabet as C10 with clock steps {61 s, TTL-1 s, TTL+1 s, 10 min+1 s} and pod kinds {fixed TTL, fixed Never, two interfaces TTL+elastic, TTL+Never, Never+TTL, long TTL+short TTL}; oracles: a fixed record is moved to Deleting/removed only by the collector, only when now-podLastSeen >= TTL and never when an allocation says Never; closure: a pod that exists (recreated under the same name, same or other node) ends Bind with its new UID on the SAME interface and address", depth))
+	r.Rule(fmt.Sprintf("breadth-first search to depth %d from roots with a fixed-IP pod {bound; removed and unbound; removed, absent for TTL-1 s, recreated and bound again} over the same alphabet as C10 with clock steps {61 s, TTL-1 s, TTL+1 s, 10 min+1 s} and pod kinds {fixed TTL, fixed Never, two interfaces TTL+elastic, TTL+Never, Never+TTL, long TTL+short TTL}; oracles: a fixed record is moved to Deleting/removed only by the collector, only when now-podLastSeen >= TTL - judged both by the record's own stamp and by the harness's ground truth of when the controller last saw the pod alive (a bind, a collector pass) - and never when an allocation says Never; closure: a pod that exists (recreated under the same name, same or other node) ends Bind with its new UID on the SAME interface and address", depth))
 	var cfgs []pwCfg
 	for _, trunk := range []bool{false, true} {
 		for _, k := range []string{"fixed-ttl", "fixed-never", "two", "two-fixed", "two-fixed-rev", "two-ttl"} {
@@ -49,6 +49,9 @@ func TestVerifC11(t *testing.T) {
 		}
 	}
 	pwRunBFS(r, t, "C11", cfgs, depth, func(cfg pwCfg) [][]string {
-		return [][]string{bound(0), append(bound(0), "podRemove:0", "reconcilePod:0", "reconcilePodENI:0")}
+		unbound := append(bound(0), "podRemove:0", "reconcilePod:0", "reconcilePodENI:0")
+		// absent for most of the TTL, then recreated and bound again: the last-seen stamp has to be fresh from here on
+		rebound := append(append([]string{}, unbound...), "clock+ttl-1s", "podCreate:0:node-1", "reconcilePod:0", "reconcilePodENI:0")
+		return [][]string{bound(0), unbound, rebound}
 	})
 }
